@@ -159,7 +159,10 @@ func (h *harness) attributeAntePanic(txBz []byte) string {
 	if hasExt, ok := tx.(authante.HasExtensionOptionsTx); ok && len(hasExt.GetExtensionOptions()) > 0 {
 		// ethereum route: only the fx-core owned decorator can be re-run in isolation
 		next := func(ctx sdk.Context, _ sdk.Tx, _ bool) (sdk.Context, error) { return ctx, nil }
-		if o := guard(func() error { _, err := fxante.NewEthPubKeyDecorator(h.c.App.AccountKeeper).AnteHandle(ctx, tx, false, next); return err }); o.Class == "panic" {
+		if o := guard(func() error {
+			_, err := fxante.NewEthPubKeyDecorator(h.c.App.AccountKeeper).AnteHandle(ctx, tx, false, next)
+			return err
+		}); o.Class == "panic" {
 			return o.Site
 		}
 		return ""
